@@ -5,7 +5,7 @@ import os
 import re
 from lib import vlib, selection
 from spec import wowm
-from gen import containers
+from gen import containers, shapes
 
 FEATURES = ["sync", "vanilla", "tbc", "wrath"]
 SAMPLE_QUICK = 24
@@ -31,6 +31,8 @@ def pre_inject(scratch):
 
 def stratum(u):
     g = u["gen"]
+    if g is None:
+        return "shaped"
     txt = "\n".join(g.lines)
     if "packed_guid" in txt:
         return "packed-guid"
@@ -63,10 +65,24 @@ def build(tier, seed, prop, only=None, with_primitives=True, sample=None):
             continue
         hn = "ct_" + re.sub(r"[^a-z0-9_]", "_", it["modpath"].replace("crate::world::", "").replace("::", "_").lower())
         units.append(dict(item=it, d=d, gen=g, lo=lo, hi=hi, hname=hn))
+    # bounded "concrete shape" contracts for messages with strings / variable arrays (gen/shapes.py)
+    shaped = []
+    for it in items:
+        d = corpus.by_loc.get((it["wowm_file"], it["wowm_line"]))
+        if d is None or d["obj"] != "container":
+            continue
+        base = re.sub(r"[^a-z0-9_]", "_", it["modpath"].replace("crate::world::", "").replace("::", "_").lower())
+        for sh in range(shapes.N_SHAPES):
+            hn = "sh_%s_s%d" % (base, sh)
+            try:
+                code, n = shapes.harness(it, d, corpus, it["versions"][0], hn, sh)
+            except containers.Unsupported:
+                continue
+            shaped.append(dict(item=it, d=d, hname=hn, code=code, shape=sh, size=n, lo=n, hi=n, gen=None))
     costs = load_costs()
     excluded = []
     cheap_units = []
-    for u in units:
+    for u in units + shaped:
         c = costs.get(u["hname"])
         u["cost"] = c
         changed = selection.changed([u["item"]["rel"], u["d"]["file"]])
@@ -74,17 +90,27 @@ def build(tier, seed, prop, only=None, with_primitives=True, sample=None):
             # measured to exceed the per-harness time/memory budget on the unchanged tree: not run, reported as not decided
             excluded.append(u["hname"])
             continue
+        if c is None and not changed:
+            # never measured on the unchanged tree: not run (so that the unchanged tree cannot end undecided), listed
+            excluded.append(u["hname"] + " (unmeasured)")
+            continue
         if tier == "quick" and not changed and (c is None or c.get("time_s", 1e9) > QUICK_MAX_S):
             continue
         cheap_units.append(u)
     if only:
-        cheap_units = [u for u in units if u["hname"] in only]
+        cheap_units = [u for u in units + shaped if u["hname"] in only]
     sel, n_changed = selection.pick(cheap_units, lambda u: [u["item"]["rel"], u["d"]["file"]], tier, seed, sample or SAMPLE_QUICK, stratum=stratum)
-    body = ["// generated each run by gen/containers.py from the wowm corpus\nuse super::spec_rt::*;\n"]
+    body = ["// generated each run by gen/containers.py / gen/shapes.py from the wowm corpus\nuse super::spec_rt::*;\n" + shapes.RT]
     specs = {}
     for u in sel:
-        body.append(containers.harness(u["item"], u["d"], u["gen"], u["lo"], u["hi"], u["hname"]))
         T = "%s::%s" % (u["item"]["modpath"], u["item"]["rust_name"])
+        if u["gen"] is None:
+            body.append(u["code"])
+            specs["verif_kani::containers::" + u["hname"]] = dict(
+                kind="bounded", bound="concrete shape %d of %d (branch choice, array counts / string lengths in {0,1,2}, concrete string content); %d bytes, all other bytes symbolic" % (u["shape"], shapes.N_SHAPES, u["size"]),
+                default_prop="C03", functions=[T + "::read_body", T + "::read_inner", T + "::write_into_vec", T + "::size_without_header"])
+            continue
+        body.append(containers.harness(u["item"], u["d"], u["gen"], u["lo"], u["hi"], u["hname"]))
         specs["verif_kani::containers::" + u["hname"]] = dict(
             kind=("bounded" if u["gen"].loops else "complete"),
             bound=("frame of at most %d bytes; string content ASCII" % min(u["hi"] + 2, max(u["lo"] + 6, containers.BOUNDED_N)) if u["gen"].loops else None),
@@ -99,7 +125,8 @@ def build(tier, seed, prop, only=None, with_primitives=True, sample=None):
         mods.update(pmods)
     batch = vlib.Batch("wow_world_messages", FEATURES, mods, specs, jobs=8, harness_timeout=900, pre_inject=pre_inject)
     meta = dict(messages_in_tree=len(items), loop_free=sum(1 for u in units if not u["gen"].loops),
-                bounded_class=sum(1 for u in units if u["gen"].loops), checked_this_run=len(sel), changed_vs_baseline=n_changed,
+                bounded_class=sum(1 for u in units if u["gen"].loops), shaped_contracts_generated=len(shaped),
+                shaped_messages=len(set(u["item"]["rel"] for u in shaped)), checked_this_run=len(sel), changed_vs_baseline=n_changed,
                 excluded_for_resources=excluded,
                 not_loop_free={k: len(v) for k, v in sorted(skipped.items(), key=lambda kv: -len(kv[1]))},
                 not_loop_free_examples={k: v[:3] for k, v in skipped.items()})
